@@ -121,6 +121,19 @@ pub fn bcf_write(h: &vcf::Header, recs: &[RecordBuf]) -> Result<Vec<u8>, Fail> {
     })
 }
 
+/// Raw BCF stream holding one record given through any `variant::Record` view.
+pub fn bcf_write_any<R>(h: &vcf::Header, rec: &R) -> Result<Vec<u8>, Fail>
+where
+    R: vcf::variant::Record,
+{
+    guard(|| {
+        let mut w = bcf::io::Writer::from(Vec::new());
+        w.write_header(h).map_err(|e| format!("write_header: {}", ioe(e)))?;
+        w.write_variant_record(h, rec).map_err(|e| format!("write_record: {}", ioe(e)))?;
+        Ok(w.into_inner())
+    })
+}
+
 /// Header only (to find where the records start).
 pub fn bcf_write_header_only(h: &vcf::Header) -> Result<Vec<u8>, Fail> {
     bcf_write(h, &[])
